@@ -219,7 +219,7 @@ def quarantine_for(prop_id):
         with open(table) as fh:
             doc = json.load(fh)
         for row in doc.get("entries", []):
-            if row.get("finding") in open_ids:
+            if row.get("finding") in open_ids and row.get("by", "label") == "label":
                 q.append({"label": re.escape(row["label"]), "families": [row["family"]], "finding": row["finding"]})
     return q
 
